@@ -393,7 +393,7 @@ CONV_FAMILIES = dict(FAMILIES)
 
 
 def _mk_convert(fam):
-    @contract(CS.conversion_surface_params, props=['C04', 'C02'], name=f'convert[{fam}]')
+    @contract(CS.conversion_surface_params, props=['C04', 'C02', 'C03'], name=f'convert[{fam}]')
     class _C:
         """conversion_surface_params on a SurfaceMCNP with an arbitrary origin and an arbitrary *unit* axis (what
         transformation() returns): the signed T4 list has the region of the MCNP view, for every point.
@@ -442,7 +442,7 @@ def _aligned_or_clear(u):
     return And(*conds)
 
 
-@contract(CS.conversion_surface_params, props=['C04', 'C02', 'C08'], name='convert[torus]')
+@contract(CS.conversion_surface_params, props=['C04', 'C02', 'C08', 'C03'], name='convert[torus]')
 class _ConvTorus:
     """Torus with an arbitrary unit axis.  The torus function depends on the point only through
     h^2 = ((pt-c).u)^2 and |pt-c|^2 (specs.surfaces.torus_hd); both are shown equal for the emitted T4 torus
